@@ -14,14 +14,18 @@ import (
 // every EndBlock) turn the evidence collected by concurrent relay bursts into a claim and a proof transaction; the
 // driver collects them from the Tendermint client stub and puts them into the next block, as a mempool would.
 //
-// The module's goroutine sleeps 2-5 s of wall clock before it acts, so these cases are paced: before a block at which
-// the sender triggers ((height + first address byte) % blocksPerSession == 1) the driver pauses 5.2 s with the node
-// reported as catching up (goroutines of earlier blocks wake and leave), runs the block, then keeps a 5.4 s window open
-// in which the node is reported as caught up. If no transaction shows up in the window the case is inconclusive
-// (timing), never a violation.
+// The module's goroutine sleeps 2-5 s of wall clock before it acts, so these cases are paced: before EVERY block at which
+// the sender triggers ((height + first address byte) % blocksPerSession == 1; for this node the third block of each
+// session) the driver pauses 5.2 s with the node reported as catching up (goroutines of earlier blocks wake and leave),
+// runs the block, then keeps a 5.4 s window open in which the node is reported as caught up — the sender runs exactly
+// where it runs on a live node. If the expected transaction never shows up the case is inconclusive (timing), never a
+// violation.
 //
-// Oracle: the claim the node sends counts exactly the relays it answered with a signed response in that session (no
-// more than the allowance), it is accepted, the proof the node sends later is accepted and paid, the claim is gone.
+// Two shapes: "dense" (bursts after the first blocks of the session) and "sparse start" (2-4 relays after the first
+// block, the sender's mid-session run, then a burst).
+//
+// Oracle: the claim the node sends counts exactly the distinct relays it answered with a signed response in that
+// session, it is accepted, the proof the node sends later is accepted and paid, the claim is gone.
 func c34EndToEnd(r *ev.Run, si int) {
 	rr := rng.New(r.Seed, "C34-e2e", si)
 	g := relayGen()
@@ -34,73 +38,78 @@ func c34EndToEnd(r *ev.Run, si int) {
 	B, W := g.BlocksPerSession, g.ClaimSubmissionWindow
 	a0 := int64(chain.Addr(chain.KeyNode0)[0])
 	trigger := func(h int64) bool { return (h+a0)%B == 1 }
-	sbh := int64(9) // first session after the bootstrap (B = 4)
+	sbh := int64(9)              // first session after the bootstrap (B = 4)
 	cb := rlCombos[2*rr.Intn(3)] // chain 0001 (all six nodes are staked for it; 0021 would have no session with a count of 6)
 	app := chain.KeyApp0 + cb.App
+	sparse := si%2 == 1
+	shape := "dense"
+	if sparse {
+		shape = "sparse-start"
+	}
 	type planned struct {
 		H     int64
 		Burst chain.BurstSpec
 	}
 	var plan []planned
 	entropy := int64(si) * 1000000
-	claimBlock, proofBlock := int64(0), int64(0)
 	end, ph := sbh+B-1, sbh+W*B
-	for b.H <= ph+2*B+2 {
+	burst := func(h int64, k, workers int) chain.MidOp {
+		bs := chain.BurstSpec{Workers: workers, SealAfter: -1, App: app, Chain: cb.Chain, SBH: sbh, Max: 100}
+		for len(bs.Relays) < k {
+			entropy++
+			s := chain.RelaySpec{App: app, Client: chain.KeyFresh0, Servicer: chain.KeyNode0, Chain: cb.Chain, SBH: sbh, Entropy: entropy, MetaHeight: h}
+			bs.Relays = append(bs.Relays, s)
+			if k > 6 && rr.Intn(4) == 0 {
+				bs.Relays = append(bs.Relays, s)
+			}
+		}
+		js, _ := json.Marshal(bs)
+		plan = append(plan, planned{H: h, Burst: bs})
+		return chain.MidOp{Kind: "relayburst", Arg: string(js)}
+	}
+	prevWindow := false
+	for b.H <= ph+B+1 { // the claim goes out at the first trigger after the session, the proof at the first one after the proof height
 		h := b.H
-		var pre []chain.MidOp
-		wantWindow := false
-		if trigger(h) && h > end && claimBlock == 0 {
-			wantWindow = true
-		} else if trigger(h) && h > ph && claimBlock != 0 && h > claimBlock+1 && proofBlock == 0 {
-			wantWindow = true
-		}
-		if wantWindow {
-			pre = append(pre, chain.MidOp{Pos: -1, Kind: "sleep", Height: 5200})
-		}
+		win := trigger(h) && h >= sbh
 		blk := b.Begin(60)
-		for _, m := range pre {
-			b.Mid(m)
+		if win {
+			b.Mid(chain.MidOp{Pos: -1, Kind: "sleep", Height: 5200})
 		}
-		if claimBlock != 0 && h == claimBlock+1 || proofBlock != 0 && h == proofBlock+1 {
+		if prevWindow {
 			blk.Txs = append(blk.Txs, "pending")
 		}
-		if h >= sbh && h <= end-1 { // relay bursts in the first blocks of the session
-			k := 12 + rr.Intn(30)
-			bs := chain.BurstSpec{Workers: 2 + rr.Intn(10), SealAfter: -1, App: app, Chain: cb.Chain, SBH: sbh, Max: 100}
-			for len(bs.Relays) < k {
-				entropy++
-				s := chain.RelaySpec{App: app, Client: chain.KeyFresh0, Servicer: chain.KeyNode0, Chain: cb.Chain, SBH: sbh, Entropy: entropy, MetaHeight: h}
-				reps := 1
-				if rr.Intn(4) == 0 {
-					reps = 2
-				}
-				for j := 0; j < reps; j++ {
-					bs.Relays = append(bs.Relays, s)
-				}
+		var after []chain.MidOp
+		inSession := h >= sbh && h <= end
+		window := chain.MidOp{Kind: "autotx", Height: 5400}
+		switch {
+		case inSession && sparse && h == sbh:
+			after = append(after, burst(h, 2+rr.Intn(3), 1))
+		case inSession && sparse && win: // the sender's mid-session run comes before the bulk of the relays
+			after = append(after, window, burst(h, 12+rr.Intn(20), 2+rr.Intn(10)))
+		case inSession && !sparse && h < end:
+			after = append(after, burst(h, 12+rr.Intn(20), 2+rr.Intn(10)))
+			if win {
+				after = append(after, window)
 			}
-			js, _ := json.Marshal(bs)
-			b.Mid(chain.MidOp{Pos: len(blk.Txs) + 1, Kind: "relayburst", Arg: string(js)})
-			plan = append(plan, planned{H: h, Burst: bs})
+		case win:
+			after = append(after, window)
 		}
-		if wantWindow {
-			b.Mid(chain.MidOp{Pos: len(blk.Txs) + 1, Kind: "autotx", Height: 5400})
-			if claimBlock == 0 {
-				claimBlock = h
-			} else {
-				proofBlock = h
-			}
+		prevWindow = win
+		for _, m := range after {
+			m.Pos = len(blk.Txs) + 1
+			b.Mid(m)
 		}
 		b.End()
 	}
 	sc := b.Script("full")
 	sc.Opts = relayOpts
-	res, err := chain.RunChild(chain.SelfBin(), sc, nil, childTimeout)
+	res, err := chain.RunChild(chain.SelfBin(), sc, nil, 3*childTimeout)
 	if err != nil || res.TimedOut {
 		r.Inconclusive(fmt.Sprintf("e2e case %d: node process did not run (%v)", si, err))
 		return
 	}
 	wit := func(extra map[string]interface{}) map[string]interface{} {
-		m := map[string]interface{}{"case": fmt.Sprint(si), "end_to_end": true, "script": saveScriptRaw(r, si, sc), "claim_window_after_block": claimBlock, "proof_window_after_block": proofBlock}
+		m := map[string]interface{}{"case": fmt.Sprint(si), "end_to_end": true, "shape": shape, "script": saveScriptRaw(r, si, sc)}
 		for k, v := range extra {
 			m[k] = v
 		}
@@ -110,10 +119,9 @@ func c34EndToEnd(r *ev.Run, si int) {
 		r.Violation("e2e/node-exited", fmt.Sprintf("e2e case %d: node process ended early (exit %d): %s", si, res.ExitCode, res.Stderr), wit(nil))
 		return
 	}
-	// relays answered in the session
+	// relays answered in the session, transactions the node broadcast
 	served := map[int64]bool{}
-	bi := 0
-	var autos [][]string
+	bi, broadcast := 0, 0
 	for _, rec := range res.Trace {
 		if rec.Kind != "offchain" {
 			continue
@@ -132,66 +140,62 @@ func c34EndToEnd(r *ev.Run, si int) {
 		case "autotx":
 			var hx []string
 			_ = json.Unmarshal([]byte(rec.Off.Value), &hx)
-			autos = append(autos, hx)
+			broadcast += len(hx)
 		}
 	}
-	r.Count("e2e_cases", 1)
+	r.Count("e2e_cases_"+shape, 1)
 	r.Count("e2e_relays_answered", int64(len(served)))
-	if len(autos) < 2 || len(autos[0]) == 0 {
-		r.Inconclusive(fmt.Sprintf("e2e case %d: the node sent no claim inside the window after block %d (timing; %d relays answered)", si, claimBlock, len(served)))
-		return
-	}
-	byH := map[int64]*chain.Snapshot{}
-	for _, s := range res.Blocks() {
-		byH[s.Height] = s
-	}
-	cs := byH[claimBlock+1]
-	if cs == nil || len(cs.Txs) == 0 {
-		r.Inconclusive(fmt.Sprintf("e2e case %d: no block carried the node's claim", si))
-		return
-	}
+	r.Count("e2e_transactions_broadcast_by_the_node", int64(broadcast))
 	key := claimKey(chain.AddrHex(chain.KeyNode0), chain.PubHex(app), cb.Chain, sbh)
-	if cs.Txs[0].Code != 0 || cs.Txs[0].Type != "claim" {
-		r.Violation("e2e/own-claim-rejected", fmt.Sprintf("e2e case %d: the claim the node built from its evidence (%d relays answered) was rejected by the chain: type %s code %d %s", si, len(served), cs.Txs[0].Type, cs.Txs[0].Code, cs.Txs[0].Log), wit(nil))
-		return
+	var cj *chain.ClaimJ
+	var claimH, paidH int64
+	var prev *chain.Snapshot
+	proofRejected := ""
+	for _, s := range res.Blocks() {
+		if cj == nil {
+			if c := findClaim(s, key); c != nil {
+				cj, claimH = c, s.Height
+			}
+			for _, t := range s.Txs {
+				if t.Type == "claim" && t.Code != 0 {
+					r.Violation("e2e/own-claim-rejected", fmt.Sprintf("e2e case %d (%s): the claim the node built from its evidence was rejected at height %d: code %d %s", si, shape, s.Height, t.Code, t.Log), wit(nil))
+					return
+				}
+			}
+		} else if paidH == 0 {
+			for _, t := range s.Txs {
+				if t.Type == "proof" && t.Code == 0 && prev != nil && supplyOf(s).Cmp(supplyOf(prev)) > 0 {
+					paidH = s.Height
+					r.Set("e2e_last_reward", new(big.Int).Sub(supplyOf(s), supplyOf(prev)).String())
+				} else if t.Type == "proof" && t.Code != 0 {
+					proofRejected = fmt.Sprintf("height %d code %d %s", s.Height, t.Code, t.Log)
+				}
+			}
+			if paidH != 0 && findClaim(s, key) != nil {
+				r.Violation("e2e/claim-not-removed", fmt.Sprintf("e2e case %d: claim still stored after its proof was paid", si), wit(nil))
+			}
+		}
+		prev = s
 	}
-	cj := findClaim(cs, key)
 	if cj == nil {
-		r.Violation("e2e/own-claim-not-stored", fmt.Sprintf("e2e case %d: accepted claim not in the claims store", si), wit(nil))
+		if len(served) < 5 {
+			r.Case(ev.Digest(sc.Steps), false) // fewer relays than the minimum: nothing to claim
+			return
+		}
+		r.Inconclusive(fmt.Sprintf("e2e case %d (%s): no claim of the node reached the chain (%d relays answered, %d transactions broadcast; timing)", si, shape, len(served), broadcast))
 		return
 	}
 	r.Count("e2e_claims_accepted", 1)
 	if cj.TotalProofs != int64(len(served)) {
-		r.Violation("e2e/claim-count-ne-answered-relays", fmt.Sprintf("e2e case %d: the node answered %d distinct relays of session %d with signed responses; its own claim counts %d", si, len(served), sbh, cj.TotalProofs), wit(map[string]interface{}{"claim": cj}))
+		r.Violation("e2e/claim-count-ne-answered-relays/"+shape, fmt.Sprintf("e2e case %d (%s): the node answered %d distinct relays of session %d with signed responses; the claim it built itself (accepted at height %d) counts %d", si, shape, len(served), sbh, claimH, cj.TotalProofs), wit(map[string]interface{}{"claim": cj}))
 	}
-	if len(autos[1]) == 0 {
-		r.Inconclusive(fmt.Sprintf("e2e case %d: the node sent no proof inside the window after block %d (timing)", si, proofBlock))
-		return
-	}
-	ps, before := byH[proofBlock+1], byH[proofBlock]
-	if ps == nil || before == nil || len(ps.Txs) == 0 {
-		r.Inconclusive(fmt.Sprintf("e2e case %d: no block carried the node's proof", si))
-		return
-	}
-	paidTx := -1
-	for i, t := range ps.Txs {
-		if t.Type == "proof" && t.Code == 0 {
-			paidTx = i
-		}
-	}
-	if paidTx < 0 {
-		r.Violation("e2e/own-proof-rejected", fmt.Sprintf("e2e case %d: the proof the node built for its own claim (%d relays) was rejected: %+v", si, cj.TotalProofs, ps.Txs), wit(nil))
-		return
-	}
-	r.Count("e2e_proofs_accepted", 1)
-	if supplyOf(ps).Cmp(supplyOf(before)) <= 0 {
-		r.Violation("e2e/own-proof-not-paid", fmt.Sprintf("e2e case %d: the node's proof was accepted but the supply did not grow", si), wit(nil))
-	} else {
+	switch {
+	case paidH != 0:
 		r.Count("e2e_proofs_paid", 1)
-		r.Set("e2e_last_reward", new(big.Int).Sub(supplyOf(ps), supplyOf(before)).String())
-	}
-	if findClaim(ps, key) != nil {
-		r.Violation("e2e/claim-not-removed", fmt.Sprintf("e2e case %d: claim still stored after its proof", si), wit(nil))
+	case proofRejected != "":
+		r.Violation("e2e/own-proof-rejected", fmt.Sprintf("e2e case %d (%s): the proof the node built for its own claim (%d relays) was rejected: %s", si, shape, cj.TotalProofs, proofRejected), wit(nil))
+	default:
+		r.Inconclusive(fmt.Sprintf("e2e case %d (%s): the node's proof did not reach the chain (timing)", si, shape))
 	}
 	r.Case(ev.Digest(sc.Steps), len(served) >= 10)
 }
